@@ -606,6 +606,122 @@ func raceC07(seed uint64, seconds int) {
 	}
 }
 
+// raceC11: the CORS decision is a function of the configuration and of THIS request. Several goroutines send requests with a
+// listed and with unlisted origins through one router at the same time: no response to an unlisted origin may carry an
+// Access-Control-Allow-Origin, every response to the listed one carries exactly it (whatever the router remembers about
+// earlier requests — a one-entry memo of the last verdict, say — must not leak between requests that overlap).
+func raceC11(seed uint64, seconds int) {
+	rep := &reporter{}
+	listed := "https://app.example.com"
+	r := mux.NewRouter("cors", raceCall, &H{base: "notFound"}, notAllowedBuilder, optionsBuilder,
+		mux.WithCORS([]string{listed, "https://b.example.com"}, []string{"Content-Type"}, nil, 60, true))
+	r.Handle("/a", &H{base: "user:1", hid: 1}, nil, "GET", "POST")
+	var stop atomic.Bool
+	var wg sync.WaitGroup
+	var n atomic.Int64
+	for k := 0; k < 6; k++ {
+		wg.Add(1)
+		go func(k int) {
+			defer wg.Done()
+			rg := rand.New(rand.NewPCG(seed, uint64(k)+300))
+			for !stop.Load() {
+				origin := listed
+				if rg.IntN(2) == 0 {
+					origin = []string{"https://evil.example.net", "https://app.example.com.evil.io", "null"}[rg.IntN(3)]
+				}
+				w := &resultWriter{hdr: http.Header{}}
+				req, _ := http.NewRequest([]string{"GET", "OPTIONS"}[rg.IntN(2)], "http://x/a", nil)
+				req.Header.Set("Origin", origin)
+				if req.Method == "OPTIONS" {
+					req.Header.Set("Access-Control-Request-Method", "POST")
+				}
+				func() {
+					defer func() {
+						if v := recover(); v != nil {
+							rep.badf("cors: runtime fault %v", v)
+						}
+					}()
+					r.ServeHTTP(w, req)
+				}()
+				got := w.hdr.Get("Access-Control-Allow-Origin")
+				if origin == listed && got != listed {
+					rep.badf("cors: listed origin %s answered with Access-Control-Allow-Origin %q", origin, got)
+				}
+				if origin != listed && (got != "" || w.hdr.Get("Access-Control-Allow-Credentials") != "") {
+					rep.badf("cors: unlisted origin %s was granted: ACAO=%q ACAC=%q", origin, got, w.hdr.Get("Access-Control-Allow-Credentials"))
+				}
+				n.Add(1)
+			}
+		}(k)
+	}
+	time.Sleep(time.Duration(seconds) * time.Second)
+	stop.Store(true)
+	wg.Wait()
+	st, _ := json.Marshal(map[string]int64{"requests": n.Load(), "bad": int64(rep.bad)})
+	fmt.Printf("STATS %s\n", st)
+	if rep.bad > 0 {
+		os.Exit(1)
+	}
+}
+
+type lockedWriter struct {
+	mu sync.Mutex
+	n  int
+}
+
+func (l *lockedWriter) Write(b []byte) (int, error) { l.mu.Lock(); l.n += len(b); l.mu.Unlock(); return len(b), nil }
+
+// raceC16: panics recovered at the same time. Handlers of one router (bundled write/status recovery) panic concurrently:
+// no panic escapes ServeHTTP, every response is the recovery answer. What the recovery option keeps between calls (a
+// buffer, say) is shared by all requests of the router.
+func raceC16(seed uint64, seconds int) {
+	rep := &reporter{}
+	out := &lockedWriter{}
+	var stop atomic.Bool
+	var wg sync.WaitGroup
+	var n atomic.Int64
+	for _, opt := range []mux.Option{mux.WithWriteRecovery(500, out), mux.WithStatusRecovery(503)} {
+		r := mux.NewRouter("rec", func(w http.ResponseWriter, req *http.Request, route types.Route, h *H) {
+			if h.hid == 9 {
+				panic("boom " + req.URL.RawQuery + strings.Repeat("x", len(req.URL.RawQuery)*7%113))
+			}
+			w.WriteHeader(204)
+		}, &H{base: "notFound"}, notAllowedBuilder, optionsBuilder, opt)
+		r.Handle("/boom", &H{base: "user:9", hid: 9}, nil, "GET")
+		r.Handle("/ok", &H{base: "user:1", hid: 1}, nil, "GET")
+		for k := 0; k < 4; k++ {
+			wg.Add(1)
+			go func(k int) {
+				defer wg.Done()
+				for i := 0; !stop.Load(); i++ {
+					w := &resultWriter{hdr: http.Header{}}
+					req, _ := http.NewRequest("GET", "http://x/boom?"+strconv.Itoa(k*1000003+i), nil)
+					func() {
+						defer func() {
+							if v := recover(); v != nil {
+								rep.badf("recovery: a panic escaped ServeHTTP although recovery is configured: %v", v)
+							}
+						}()
+						r.ServeHTTP(w, req)
+					}()
+					if w.status != 500 && w.status != 503 {
+						rep.badf("recovery: status %d for a panicking handler", w.status)
+					}
+					n.Add(1)
+				}
+			}(k)
+		}
+	}
+	time.Sleep(time.Duration(seconds) * time.Second)
+	stop.Store(true)
+	wg.Wait()
+	st, _ := json.Marshal(map[string]int64{"requests": n.Load(), "bad": int64(rep.bad)})
+	fmt.Printf("STATS %s\n", st)
+	if rep.bad > 0 {
+		os.Exit(1)
+	}
+}
+
 func runRace(args []string) {
 	if len(args) < 3 {
 		fmt.Fprintln(os.Stderr, "usage: race C06|C07 <seed> <seconds>")
@@ -618,6 +734,10 @@ func runRace(args []string) {
 		raceC06(seed, secs)
 	case "C07":
 		raceC07(seed, secs)
+	case "C11":
+		raceC11(seed, secs)
+	case "C16":
+		raceC16(seed, secs)
 	default:
 		os.Exit(2)
 	}
